@@ -70,10 +70,12 @@ def cases(tier, seed):
                 for i in [i for i in INDEXES if _index_ok(i, shape)]:
                     out.append(dict(kind='setitem', cfg=cfg, ka=list(rng.choice(P)), shape=list(shape), container=container, idx=i,
                                     rhs=rng.choice(['mv', 'array'])))
+                out.append(dict(kind='setitem-permuted', cfg=cfg, ka=list(rng.choice([p for p in P if len(p) >= 2])), shape=list(shape), container=container,
+                                idx=rng.choice([i for i in INDEXES if _index_ok(i, shape)])))
                 out.append(dict(kind='itermv', cfg=cfg, ka=list(rng.choice(P)), shape=list(shape), container=container))
         for sym_op in INFIX:
             for side in ('left', 'right'):
-                for what in ('number', 'list', 'tuple', 'callable', 'nested-callable', 'list-of-callables'):
+                for what in ('number', 'list', 'tuple', 'callable', 'nested-callable', 'list-of-callables', 'callable-returning-list', 'callable-returning-tuple'):
                     out.append(dict(kind='operand', cfg=cfg, infix=sym_op, side=side, what=what,
                                     ka=list(rng.choice(P)), kb=list(rng.choice(P)), kc=list(rng.choice(P))))
         out.append(dict(kind='concrete-numbers', cfg=cfg, ka=list(rng.choice(P))))
@@ -216,6 +218,30 @@ def run_case(desc, V):
         for name, got, want in (('reverse', ~X, ~Xf), ('involute', X.involute(), Xf.involute()), ('neg', -X, -Xf), ('add', X + X, Xf + Xf)):
             claims += _cmp_mv(f'after-setitem:{name}', got, want, fkey='setitem|operator-after-assignment')
         return claims
+    if kind == 'setitem-permuted':
+        # right-hand side holds the same blades in ANOTHER key order: either refused, or assigned blade by blade
+        shape = tuple(desc['shape'])
+        X = _amv(alg, V, 'X', desc['ka'], shape, desc['container'])
+        before, _ = _entries(X)
+        idx = eval(desc['idx'])
+        sub_shape = np.empty(shape)[idx if isinstance(idx, tuple) else (idx,)].shape
+        kp = list(reversed(desc['ka']))
+        Y = _amv(alg, V, 'N', kp, sub_shape, 'list') if sub_shape else mv(alg, V, 'N', kp)
+        try:
+            X[idx] = Y
+        except ValueError:
+            after, _ = _entries(X)
+            return [Eq(f'refused-unchanged[{k},{pos}]', after[(k, pos)], v, fkey='setitem|permuted-keys') for (k, pos), v in before.items()]
+        after, _ = _entries(X)
+        newv = {k: np.asarray(v, dtype=object) if sub_shape else v for k, v in zip(Y.keys(), Y.values())}
+        for k in desc['ka']:
+            exp = np.empty(shape, dtype=object)
+            for ix in np.ndindex(*shape):
+                exp[ix] = before[(k, int(np.ravel_multi_index(ix, shape)))]
+            exp[idx if isinstance(idx, tuple) else (idx,)] = newv[k]
+            for pos, e in enumerate(exp.ravel()):
+                claims.append(Eq(f'setitem-permuted[{k},{pos}]', after[(k, pos)], e, fkey='setitem|permuted-keys'))
+        return claims
     if kind == 'itermv':
         shape = tuple(desc['shape'])
         X = _amv(alg, V, 'X', desc['ka'], shape, desc['container'])
@@ -262,6 +288,13 @@ def run_case(desc, V):
                 c = lambda: (lambda: a)
                 got = f(c, m) if left else f(m, c)
                 return _cmp_mv('nested-callable', got, direct(a), fkey)
+            if what in ('callable-returning-list', 'callable-returning-tuple'):
+                seq = [a, b] if what.endswith('list') else (a, b)
+                c = (lambda: seq) if desc['infix'] in '*^|' else (lambda: (lambda: seq))
+                got = f(c, m) if left else f(m, c)
+                if not isinstance(got, (list, tuple)) or len(got) != 2:
+                    return [Fail('callable-sequence:type', f'a callable whose value is a {type(seq).__name__} gave {type(got).__name__}', fkey)]
+                return _cmp_mv('seq[0]', got[0], direct(a), fkey) + _cmp_mv('seq[1]', got[1], direct(b), fkey)
             if what == 'list-of-callables':
                 seq = [lambda: a, lambda: b]
                 got = f(seq, m) if left else f(m, seq)
